@@ -222,6 +222,37 @@ theorem C12_prune_keeps_ancestors (bs : List Backup) (hwf : ParentsBefore bs) (p
   obtain ⟨_, r, hr, hir⟩ := hi
   exact ⟨hpres, r, hr, chainUp_closed bs hwf (r + 1) r (Nat.lt_succ_self r) i hir b p hb hp⟩
 
+/-- `a` is reachable from `i` by following parent links (zero or more) -/
+inductive Anc (bs : List Backup) : Nat → Nat → Prop
+  | refl (i : Nat) : Anc bs i i
+  | step {i p a : Nat} {b : Backup} : bs[i]? = some b → b.parent = some p → Anc bs p a → Anc bs i a
+
+/-- **…nor any backup further up its chain**: the whole ancestry of a kept backup — parent,
+    grandparent, … down to the full backup, any depth — is kept, as long as it was present before
+    the prune (so a restore of any kept backup finds every member of its chain afterwards). -/
+theorem C12_prune_keeps_whole_chain (bs : List Backup) (hwf : ParentsBefore bs) (pol : Policy)
+    (now i a : Nat) (hi : i ∈ keptAfterPrune bs pol now) (hanc : Anc bs i a)
+    (hpres : ∀ x, Anc bs i x → x ∈ present bs) : a ∈ keptAfterPrune bs pol now := by
+  induction hanc with
+  | refl i => exact hi
+  | step hb hp _ ih =>
+    have hpk := C12_prune_keeps_ancestors bs hwf pol now _ _ _ hi hb hp
+      (hpres _ (Anc.step hb hp (Anc.refl _)))
+    exact ih hpk (fun x hx => hpres x (Anc.step hb hp hx))
+
+/-- witness: full ← incremental ← incremental; only the newest is retained by the policy (the two
+    older ones are past every horizon), and the whole chain survives the prune -/
+def mkB (full : Bool) (parent : Option Nat) (ts : Nat) : Backup :=
+  { full := full, parent := parent, ts := ts, maxWal := none, snap := none, manifest := none,
+    snaps := [], wals := [] }
+def chain3 : List Backup := [mkB true none 0, mkB false (some 0) 10, mkB false (some 1) 1000000]
+
+example : Anc chain3 2 0 :=
+  .step (b := mkB false (some 1) 1000000) rfl rfl
+    (.step (b := mkB false (some 0) 10) rfl rfl (.refl 0))
+example : retained0 chain3 ⟨0, 0, 0, 0, 1⟩ 1000000 = [2] ∧
+    keptAfterPrune chain3 ⟨0, 0, 0, 0, 1⟩ 1000000 = [0, 1, 2] := by decide
+
 /-- …and what pruning deletes is exactly what it does not keep -/
 theorem C12_pruned_iff_not_kept (bs : List Backup) (pol : Policy) (now i : Nat) :
     i ∈ prunedBy bs pol now ↔ i ∈ present bs ∧ i ∉ keptAfterPrune bs pol now := by
